@@ -17,7 +17,8 @@ func init() {
 		ID: "C03",
 		Explain: "Decided clauses: R1 registration-time, mount-time, RoutePatternMatch and request-time normalisation apply the same (config flag → transformation) set to the " +
 			"pattern side resp. the path side; R2 the delimiter tables are consistent with each other and with the bytes the matcher treats specially; R3 every routeSegment field the " +
-			"matcher reads has a writer in the parser, and the pooled routeParser is fully reset. Not decided: completeness of the greedy right-to-left search for all fillings, " +
+			"matcher reads has a writer in the parser, and the pooled routeParser is fully reset; R4 the constant that ends a parameter is searched as a whole (a first-byte search only under len == 1; Count and LastIndex use the same needle). " +
+			"Not decided: completeness of the greedy right-to-left search for all fillings, " +
 			"the one-character rule for adjacent parameters, percent-decoding semantics (value-level).",
 		Assume: []string{"utils.ToLower/TrimRight and fasthttp.AppendUnquotedArg are the only normalising transformations (table)"},
 		Run:    runC03,
@@ -334,6 +335,55 @@ func runC03(r *Run) {
 			okOrder = hit == nil
 		}
 		r.check(okOrder, "RoutePatternMatch:reset-before-parse", r.fpos(rpm), "pool.Get → reset → parseRoute on every path", "a pooled routeParser can be parsed into without reset")
+	})
+
+	r.rule("R4", "the constant that ends a parameter is searched as a whole: a single-byte search with ComparePart[0] is reachable only when len(ComparePart) == 1, and counting and locating use the same needle (E1/E5)", func() {
+		const cp = "routeSegment.ComparePart"
+		isWhole := func(v ssa.Value) bool { return loadOfField(v, cp) }
+		isFirstByte := func(v ssa.Value) bool {
+			ix, ok := stripValue(v).(*ssa.Index)
+			return ok && loadOfField(ix.X, cp) && isConstInt(ix.Index, 0)
+		}
+		searchers := map[string]bool{"strings.Index": true, "strings.LastIndex": true, "strings.Count": true, "strings.IndexByte": true, "strings.LastIndexByte": true,
+			"strings.HasPrefix": true, "strings.Contains": true, "bytes.IndexByte": true, "bytes.LastIndexByte": true}
+		nWhole, nByte := 0, 0
+		r.P.AllFuncs("", func(f *ssa.Function) {
+			for _, c := range callsIn(f, false) {
+				if !searchers[c.Name] || len(c.Common.Args) != 2 {
+					continue
+				}
+				needle := c.Common.Args[1]
+				switch {
+				case isWhole(needle):
+					nWhole++
+				case isFirstByte(needle):
+					nByte++
+					cut := map[edge]bool{}
+					for _, br := range branchesIn(f) {
+						if lenOfField(stripValue(br.Info.Root), cp) {
+							if sl, ok := br.eqIntSlot(1, true); ok {
+								cut[edge{br.If.Block(), sl}] = true
+							}
+						}
+					}
+					_, hit := reach(entryOf(f), func(in ssa.Instruction) bool { return in == c.Instr }, cut, nil)
+					r.check(len(cut) > 0 && hit == nil, short(f.String())+":byte-search-needs-one-byte-constant", r.pos(c.Instr), "the single-byte search is reachable only through len(ComparePart) == 1",
+						"the end of a parameter is located by the first byte of the following constant although the constant can be longer: for `/*-v1` style patterns the value is cut at any `-`, the rest no longer lines up and a legal path does not match (or captures the wrong value)")
+				}
+			}
+		})
+		r.atLeast("whole-constant searches", nWhole, 3)
+		r.atLeast("single-byte searches", nByte, 1)
+		// the greedy search counts and locates with the same needle
+		g := r.Fn("", "findGreedyParamLen")
+		locs := 0
+		for _, c := range callsIn(g, false) {
+			if searchers[c.Name] {
+				locs++
+				r.check(isWhole(c.Common.Args[1]), "findGreedyParamLen:"+c.Name+":needle", r.pos(c.Instr), "the right-to-left search looks for the whole constant, like the Count that sent it here", "the right-to-left search does not look for the constant that strings.Count counted")
+			}
+		}
+		r.atLeast("searches in findGreedyParamLen", locs, 1)
 	})
 }
 
